@@ -72,6 +72,22 @@ BALANCED_SPECIAL = [
     "[Pu](F)(F)(F)F.FF>>[Pu](F)(F)(F)(F)(F)F",
 ]
 
+def element_swaps(limit=None, rng=None):
+    """one element replaced by its neighbour in the periodic table, everything else equal: unbalanced however
+    similar the symbols look (Am / Cm, Np / Pu, Nb / Mo ...)"""
+    from rdkit import Chem
+    pt = Chem.GetPeriodicTable()
+    out = []
+    for z in range(3, 118):
+        a, b = pt.GetElementSymbol(z), pt.GetElementSymbol(z + 1)
+        out.append("[%s]>>[%s]" % (a, b))
+        if z % 3 == 0:
+            out.append("[%s+3].[Cl-].[Cl-].[Cl-]>>Cl[%s](Cl)Cl" % (a, b))
+    if rng is not None:
+        rng.shuffle(out)
+    return out[:limit] if limit else out
+
+
 UNBALANCED_SPECIAL = [
     # equal in every element, different in net charge (negative and positive, one or several units)
     "[I-].[I-]>>II",
